@@ -512,7 +512,7 @@ Definition fresh_id (g : gstate) (id : Z) : Prop :=
   id <> EMPTY_ID /\ heap (g_st g) id = None /\ ~ In id (dlog (g_st g)) /\ ~ In id (flog (g_st g)).
 Definition legal (g : gstate) (o : op) : Prop :=
   match o with
-  | OCreate id _ => fresh_id g id
+  | OCreate id bytes => fresh_id g id /\ Z.of_nat (length bytes) < M64
   | OConcat f a b => fresh_id g f /\ holds g a /\ holds g b
   | OSubrange f a off len => fresh_id g f /\ holds g a /\ 0 <= off < M64 /\ 0 <= len < M64
   | OMap f a => fresh_id g f /\ holds g a
